@@ -284,10 +284,20 @@ pub fn watchdog(id: String, tier: Tier, budget_s: u64) {
 
 /// Violations and evidence fields contributed from outside a property module (the environment
 /// probe): merged by `finish`.
+/// Text appended to the bound description of this run's evidence (families added to a check after
+/// its own description was written; set once by the binary before the check runs).
+pub static BOUND_ADDENDUM: std::sync::Mutex<String> = std::sync::Mutex::new(String::new());
+
 pub static EXTRA: std::sync::Mutex<(Vec<Violation>, Vec<(String, Value)>)> = std::sync::Mutex::new((Vec::new(), Vec::new()));
 
 /// Print verdict lines, write replay files and the evidence file; returns the exit code.
 pub fn finish(ctx: &Ctx, mut acc: Acc, mut fin: Finish) -> i32 {
+    {
+        let add = BOUND_ADDENDUM.lock().unwrap();
+        if !add.is_empty() {
+            fin.bound = format!("{}; ALSO: {}", fin.bound, add);
+        }
+    }
     {
         let mut e = EXTRA.lock().unwrap();
         for v in e.0.drain(..) {
